@@ -31,7 +31,12 @@ import docmodel as M  # noqa: E402
 import runner as R  # noqa: E402
 
 PROP = "C13"
-HEADER = "prop_autohash 1"
+HEADER_PLAIN = "prop_autohash 1"
+# every library call is entered with errno holding a value no call produces
+# (what an unrelated earlier failure leaves behind); a call that does not
+# touch errno is reported as errno 0
+HEADER_PRESET = "prop_autohash 1 4242"
+HEADER = HEADER_PLAIN
 
 
 def run_cases(binary, cases, wd, timeout=900):
@@ -1181,7 +1186,11 @@ def dispatch(chunk_id, payload):
     fn = {"A": explore_chunk, "H": history_chunk, "D": matrix_chunk,
           "E": quote_chunk, "Z": sized_chunk}[kind]
     t0 = time.time()
+    global HEADER
+    HEADER = HEADER_PRESET if chunk_id % 2 else HEADER_PLAIN
     part = fn(chunk_id, payload[1:])
+    part["counters"]["chunks_errno_%s" % (
+        "preset" if chunk_id % 2 else "zero")] = 1
     part.pop("_distinct_on", None)
     part["counters"]["cpu_s_part_%s" % kind] = round(time.time() - t0, 2)
     return part
